@@ -94,7 +94,17 @@ def match_finding(entry, mech):
         return False
     for k, v in entry.get('match', {}).items():
         got = mech.get(k, None)
-        if isinstance(v, list):
+        if isinstance(v, dict):
+            # {"contains": x} / {"contains_any": [..]} on string or list valued mechanism fields
+            if got is None:
+                return False
+            if 'contains' in v and v['contains'] not in got:
+                return False
+            if 'contains_any' in v and not any(x in got for x in v['contains_any']):
+                return False
+            if 'contains_none' in v and any(x in got for x in v['contains_none']):
+                return False
+        elif isinstance(v, list):
             if got not in v:
                 return False
         elif got != v:
